@@ -15,6 +15,7 @@ Expr terms over exact rationals; proved over R in Props/C17.v).  The driver
     the Cholesky factor and the documented density of the matrix (Props: they differ by the log Jacobian);
  E. Prior(transform=log/exp/square) = base density at transform(x); MultivariateNormalPrior against exact rational
     linear algebra (inverse certificate + determinant in Coq)."""
+import inspect
 import json
 import math
 import os
@@ -436,6 +437,432 @@ def part_modules(out, rng, tier):
                 break
 
 
+# ------------------------------------------------------------------------------- F. several constrained parameters
+
+def distinct_constraint(j, rot, shape, rng, wide=False):
+    """the constraint given to the j-th constrained parameter of a module: the classes rotate Interval / GreaterThan /
+    LessThan (a different class for neighbouring parameters, shifted by `rot`), the bounds are drawn from disjoint
+    windows so that all parameters of one module get pairwise different bounds; parameters with more than one element get
+    TENSOR-valued bounds (one bound per element) every other time."""
+    kind = ("interval", "greater", "less")[(j + rot) % 3]
+    base = 0.25 + 1.5 * j + rng.randint(0, 4) / 8.0
+    width = rng.randint(4, 24) / 8.0
+    if wide:        # constructors that initialise the parameter to a fixed default need bounds containing it
+        base, width = (1 + j) / 64.0 + rng.randint(0, 4) / 256.0, 12.0 + j + rng.randint(0, 8) / 8.0
+    n = 1
+    for d in shape:
+        n *= d
+    tens = n > 1 and (j + rot) % 2 == 0
+    if tens:
+        off = (torch.arange(n, dtype=torch.float64) * 0.125).reshape(shape)
+        lo, hi = base + off, base + width + 2 * off
+    else:
+        lo, hi = base, base + width
+    if kind == "interval":
+        return Interval(lo, hi)
+    if kind == "greater":
+        return GreaterThan(lo)
+    return LessThan(hi)
+
+
+def _own_kwargs(cls, suffix):
+    names = []
+    for c in cls.__mro__:
+        if "__init__" in c.__dict__:
+            try:
+                sig = inspect.signature(c.__init__)
+            except (TypeError, ValueError):
+                continue
+            for p_ in sig.parameters:
+                if p_.endswith(suffix) and p_ not in names:
+                    names.append(p_)
+    if issubclass(cls, k_.Kernel) and not cls.has_lengthscale:
+        names = [n_ for n_ in names if not n_.startswith("lengthscale_")]
+    return names
+
+
+def ctor_table():
+    """(name, class, positional args, fixed kwargs): every class that takes `<param>_constraint` keyword arguments; the
+    driver passes a DISTINCT non-default constraint for every one of them (found by signature inspection)"""
+    yield "RBF-ard", k_.RBFKernel, (), dict(ard_num_dims=2)
+    yield "Matern", k_.MaternKernel, (), dict(nu=1.5)
+    yield "RQ", k_.RQKernel, (), {}
+    yield "RQ-ard", k_.RQKernel, (), dict(ard_num_dims=2)
+    yield "Periodic", k_.PeriodicKernel, (), {}
+    yield "Periodic-ard", k_.PeriodicKernel, (), dict(ard_num_dims=2)
+    yield "Periodic-batch", k_.PeriodicKernel, (), dict(batch_shape=torch.Size([2]))
+    yield "Cosine", k_.CosineKernel, (), {}
+    yield "Linear", k_.LinearKernel, (), {}
+    yield "Polynomial", k_.PolynomialKernel, (), dict(power=2)
+    yield "PolynomialGrad", k_.PolynomialKernelGrad, (), dict(power=2)
+    yield "Constant", k_.ConstantKernel, (), {}
+    yield "PiecewisePolynomial", k_.PiecewisePolynomialKernel, (), dict(q=1)
+    yield "Scale", k_.ScaleKernel, ("@rbf",), {}
+    yield "Scale-periodic", k_.ScaleKernel, ("@periodic",), {}
+    yield "SpectralMixture", k_.SpectralMixtureKernel, (), dict(num_mixtures=2, ard_num_dims=2)
+    yield "SpectralDelta", k_.SpectralDeltaKernel, (), dict(num_dims=2, num_deltas=3)
+    yield "Cylindrical", k_.CylindricalKernel, (3, "@rbf"), {}
+    yield "HammingIMQ", k_.HammingIMQKernel, (), dict(vocab_size=5)
+    yield "Index", k_.IndexKernel, (), dict(num_tasks=3, rank=1)
+    yield "RBFGrad", k_.RBFKernelGrad, (), {}
+    yield "Gaussian", L_.GaussianLikelihood, (), {}
+    yield "Gaussian-batch", L_.GaussianLikelihood, (), dict(batch_shape=torch.Size([2]))
+    yield "Laplace", L_.LaplaceLikelihood, (), {}
+    yield "StudentT", L_.StudentTLikelihood, (), {}
+    yield "Beta", L_.BetaLikelihood, (), {}
+    yield "ConstantMean", M_.ConstantMean, (), {}
+
+
+def _ctor_args(args, rot, rng, with_priors):
+    """positional sub-kernels are built through their own constructors with their own distinct constraints"""
+    out = []
+    for a in args:
+        if a == "@rbf":
+            c = distinct_constraint(5, rot, (1, 1), rng)
+            out.append(k_.RBFKernel(lengthscale_constraint=c, lengthscale_prior=_prior_inside(c, (1, 1)) if with_priors else None))
+        elif a == "@periodic":
+            c1, c2 = distinct_constraint(5, rot, (1, 1), rng), distinct_constraint(6, rot, (1, 1), rng)
+            out.append(k_.PeriodicKernel(lengthscale_constraint=c1, period_length_constraint=c2,
+                                         lengthscale_prior=_prior_inside(c1, (1, 1)) if with_priors else None,
+                                         period_length_prior=_prior_inside(c2, (1, 1)) if with_priors else None))
+        else:
+            out.append(a)
+    return out
+
+
+def _prior_inside(c, shape, wide=False):
+    """a UniformPrior whose support lies strictly inside the bounds of c (elementwise for tensor bounds)"""
+    lo, hi = c.lower_bound, c.upper_bound
+    span = 12.0 if wide else 3.0
+    lo2 = torch.where(torch.isfinite(lo), lo, hi - span)
+    hi2 = torch.where(torch.isfinite(hi), hi, lo + span)
+    f = 0.02 if wide else 0.25
+    a, b = lo2 + f * (hi2 - lo2), lo2 + (1 - f) * (hi2 - lo2)
+    return P.UniformPrior(a, b)
+
+
+def build_ctor(cls, args, kw, rot, rng, with_priors, wide=False):
+    """construct cls with a distinct constraint for every `<param>_constraint` keyword (and, with_priors, a prior inside
+    the bounds for every `<param>_prior` keyword that has one).  Returns (module, {kwarg name: constraint object}).
+    A constructor that sets a parameter to a fixed default rejects bounds / prior supports that do not contain it
+    (StudentTLikelihood: deg_free = 4): then the `wide` variant is used (still a different class and different bounds
+    for every parameter)."""
+    proto = cls(*_ctor_args(args, rot, random.Random(0), False), **kw)
+    st = rng.getstate()
+    passed, extra = {}, {}
+    for j, cn in enumerate(_own_kwargs(cls, "_constraint")):
+        base = cn[:-len("_constraint")]
+        attr = getattr(proto, base, None)
+        shape = tuple(attr.shape) if torch.is_tensor(attr) else ()
+        passed[cn] = distinct_constraint(j, rot, shape, rng, wide)
+        if with_priors and base + "_prior" in _own_kwargs(cls, "_prior"):
+            extra[base + "_prior"] = _prior_inside(passed[cn], shape, wide)
+    try:
+        return cls(*_ctor_args(args, rot, rng, with_priors), **kw, **passed, **extra), passed
+    except (RuntimeError, ValueError):
+        if wide:
+            raise
+        rng.setstate(st)
+        return build_ctor(cls, args, kw, rot, rng, with_priors, wide=True)
+
+
+def reregister(m, rot, rng):
+    """give every constrained parameter of an existing module its own constraint through the public
+    Module.register_constraint (what a user does to change a default)"""
+    for j, (pn, owner, leaf, pub, c) in enumerate(discover(m)):
+        shape = tuple(getattr(owner, pub).shape) if pub and hasattr(owner, pub) else tuple(getattr(owner, leaf).shape)
+        owner.register_constraint(leaf, distinct_constraint(j, rot, shape, rng))
+    return m
+
+
+def settable(m):
+    """constrained parameters with a public property + setter, as dicts"""
+    out = []
+    for pn, owner, leaf, pub, c in discover(m):
+        prop = getattr(type(owner), pub, None) if pub else None
+        if isinstance(prop, property) and prop.fset is not None:
+            shape = tuple(getattr(owner, pub).shape)
+            lo, hi = c.lower_bound.expand(shape).reshape(-1).tolist(), c.upper_bound.expand(shape).reshape(-1).tolist()
+            out.append(dict(pn=pn, owner=owner, leaf=leaf, pub=pub, cons=c, shape=shape, lo=lo, hi=hi,
+                            dotted=".".join(pn.split(".")[:-1] + [pub])))
+    return out
+
+
+def _inside(v, lo, hi):
+    return lo < v < hi
+
+
+def pick_for(params, i, rng, want_inside):
+    """a value for element 0 of parameter i: inside (want_inside) or outside its own bounds; when possible on the other
+    side for a sibling parameter (inside own / outside a sibling's, resp. outside own / inside a sibling's): that is the value a
+    setter consulting the sibling's constraint treats differently"""
+    l, u = params[i]["lo"][0], params[i]["hi"][0]
+    sib = [(q_["lo"][0], q_["hi"][0]) for k, q_ in enumerate(params) if k != i]
+    cands = []
+    for _ in range(12):
+        v = pick_interior(l, u, rng) if want_inside else pick_outside(l, u, rng)
+        v = round(v * 64) / 64.0
+        if _inside(v, l, u) != want_inside or v in (l, u):
+            continue
+        cands.append(v)
+        if any(_inside(v, a, b) != want_inside for a, b in sib):
+            return v
+    return cands[0] if cands else (pick_interior(l, u, rng) if want_inside else pick_outside(l, u, rng))
+
+
+def gen_mhistory(params, rng, maxlen, prior_names):
+    ops = []
+    for _ in range(rng.randint(2, maxlen)):
+        i = rng.randrange(len(params))
+        l, u = params[i]["lo"][0], params[i]["hi"][0]
+        kind = rng.choice(["set", "set", "set_t", "initcons", "initroot", "initraw", "step", "set_bad", "set_bad", "sample"])
+        if kind == "sample" and prior_names[i] is None:
+            kind = "set"
+        if kind == "set_t":
+            vals = [round(pick_interior(a, b, rng) * 64) / 64.0 for a, b in zip(params[i]["lo"], params[i]["hi"])]
+            vals = [v if a < v < b else (a + b) / 2 if math.isfinite(a + b) else v for v, a, b in zip(vals, params[i]["lo"], params[i]["hi"])]
+            ops.append((i, "set_t", vals))
+        elif kind in ("set", "initcons", "initroot"):
+            uniform = all(a == params[i]["lo"][0] for a in params[i]["lo"]) and all(b == params[i]["hi"][0] for b in params[i]["hi"])
+            if uniform:
+                ops.append((i, kind, pick_for(params, i, rng, True)))
+            else:       # a scalar must be inside EVERY element's bounds: use per-element values instead
+                vals = [round(pick_interior(a, b, rng) * 64) / 64.0 for a, b in zip(params[i]["lo"], params[i]["hi"])]
+                vals = [v if a < v < b else (a + b) / 2 if math.isfinite(a + b) else v for v, a, b in zip(vals, params[i]["lo"], params[i]["hi"])]
+                ops.append((i, "set_t", vals))
+        elif kind == "set_bad":
+            ops.append((i, "set", pick_for(params, i, rng, False)))
+        elif kind == "initraw":
+            ops.append((i, kind, rng.choice([round(rng.gauss(0, 3), 3), round(rng.uniform(-30, 30), 2)])))
+        elif kind == "sample":
+            ops.append((i, kind, rng.randint(0, 10 ** 6)))
+        else:
+            ops.append((i, kind, rng.choice([0.01, 0.5, 5.0]), round(rng.uniform(-3, 3), 3)))
+    return ops
+
+
+def apply_mhistory(root, params, ops, prior_names):
+    """run the ops on the implementation.  Per op: the op as the model sees it + per parameter (rejected so far, read of
+    element 0, all elements in bounds, raw element 0) + the list of complaints that need no model (full-tensor read-back)"""
+    rej = [0] * len(params)
+    trace, complaints = [], []
+    for oi, o in enumerate(ops):
+        i, kind = o[0], o[1]
+        Pm = params[i]
+        owner, leaf, pub = Pm["owner"], Pm["leaf"], Pm["pub"]
+        mop, want_all, exc = None, None, None
+        try:
+            if kind == "set":
+                mop = ("Set_", o[2]); want_all = torch.full(Pm["shape"], o[2])
+                setattr(owner, pub, torch.tensor(o[2]))
+            elif kind == "set_t":
+                mop = ("Set_", o[2][0]); want_all = torch.tensor(o[2]).reshape(Pm["shape"])
+                setattr(owner, pub, want_all.clone())
+            elif kind == "initcons":
+                mop = ("InitCons", o[2]); want_all = torch.full(Pm["shape"], o[2])
+                owner.initialize(**{pub: torch.tensor(o[2])})
+            elif kind == "initroot":
+                mop = ("InitCons", o[2]); want_all = torch.full(Pm["shape"], o[2])
+                root.initialize(**{Pm["dotted"]: torch.tensor(o[2])})
+            elif kind == "initraw":
+                mop = ("InitRaw", o[2])
+                owner.initialize(**{leaf: torch.full_like(getattr(owner, leaf).data, o[2])})
+            elif kind == "sample":
+                prior = owner._priors[prior_names[i]][0]
+                torch.manual_seed(o[2])
+                drawn = prior.sample().detach()
+                want_all = drawn.expand(Pm["shape"]) if drawn.numel() <= max(1, int(torch.tensor(Pm["shape"]).prod())) else drawn.reshape(Pm["shape"])
+                mop = ("Set_", want_all.reshape(-1)[0].item())
+                torch.manual_seed(o[2])
+                owner.sample_from_prior(prior_names[i])
+        except Exception as e:      # noqa: BLE001 -- whether a rejection was due is decided by the model
+            rej[i] += 1
+            want_all = None
+            exc = type(e).__name__
+        if kind == "step":
+            raw = getattr(owner, leaf)
+            delta = 0.0
+            if raw.requires_grad:
+                before = raw.detach().clone()
+                opt = torch.optim.SGD([raw], lr=o[2])
+                opt.zero_grad()
+                loss = ((getattr(owner, pub) - (getattr(owner, pub).detach() + o[3])) ** 2).sum()
+                loss.backward()
+                opt.step()
+                delta = (raw.detach() - before).reshape(-1)[0].item()
+            mop = ("Step", delta)
+        row = []
+        with torch.no_grad():
+            for k, Q in enumerate(params):
+                rd = getattr(Q["owner"], Q["pub"]).detach()
+                c = Q["cons"]
+                lo, hi = c.lower_bound.expand(rd.shape), c.upper_bound.expand(rd.shape)
+                inb = bool(torch.isfinite(rd).all() and (rd >= lo).all() and (rd <= hi).all())
+                row.append((rej[k], rd.reshape(-1)[0].item(), inb, getattr(Q["owner"], Q["leaf"]).detach().reshape(-1)[0].item()))
+                if k == i and want_all is not None and inb:
+                    if rd.shape != want_all.shape or not torch.allclose(rd, want_all, rtol=1e-9, atol=1e-11):
+                        complaints.append((oi, "read", rd.reshape(-1).tolist()[:6], want_all.reshape(-1).tolist()[:6]))
+        trace.append((mop, row, exc))
+    return trace, complaints
+
+
+def mhistory_term(params, raw0, trace):
+    cs = "; ".join("(%s, %s)" % (cons_lit(Q["lo"][0], Q["hi"][0]), C.qc_lit(r)) for Q, r in zip(params, raw0))
+    cops = []
+    for (i, _k, *_), (mop, _row, _exc) in trace:
+        cops.append("(%d%%nat, %s %s)" % (i, mop[0], C.qc_lit(mop[1]) if mop[0] in ("Set_", "InitCons") else econst(mop[1])))
+    return "(KMHistory ([%s], [%s]))" % (cs, "; ".join(cops))
+
+
+def part_multi(out, rng, tier):
+    """EVERY module with constrained parameters, built so that each parameter has its own, non-default constraint
+    (different classes, different bounds, tensor-valued bounds for ARD / batched parameters): (a) through the constructor's
+    `<param>_constraint` keywords, (b) through Module.register_constraint on the instances of part B.  Then histories of
+    operations addressed to ALL parameters of the module against the multi-parameter model (Models/C17_constraints.v mstate):
+    set / initialize (local and dotted name from the root) / raw initialize / step / out-of-bounds set / sample_from_prior;
+    after every op EVERY parameter is compared (the addressed one reads the assigned value, the others are unchanged)."""
+    nrot = 2 if tier == "quick" else 6
+    nh = 2 if tier == "quick" else 8
+    builds = []
+    for name, cls, args, kw in ctor_table():
+        for rot in range(nrot):
+            builds.append(("ctor", name, rot, (cls, args, kw)))
+    for mname, mk in modules_table():
+        if len(discover(mk())) >= 2:
+            for rot in range(nrot):
+                builds.append(("register", mname, rot, mk))
+    plan, terms = [], []
+    for how, name, rot, spec in builds:
+        bseed = rng.randint(0, 10 ** 9)
+
+        def make(with_priors, how=how, spec=spec, rot=rot, bseed=bseed):
+            r2 = random.Random(bseed)
+            if how == "ctor":
+                return build_ctor(spec[0], spec[1], spec[2], rot, r2, with_priors)
+            return reregister(spec(), rot, r2), {}
+        desc0 = dict(module=name, how=how, rotation=rot)
+        try:
+            m, passed = make(False)
+            params = settable(m)
+        except Exception as e:
+            out.fail("multi:%s:%s:construct:%s" % (how, name, type(e).__name__), "constructing the module with distinct constraints raised %s: %s"
+                     % (type(e).__name__, str(e)[:200]), desc0)
+            continue
+        desc0["constraints"] = {Q["pn"]: "%s[%g,%g]" % (type(Q["cons"]).__name__, Q["lo"][0], Q["hi"][0]) for Q in params}
+        out.case(dict(desc0, check="construct"), len(params) >= 2, label="multi-construct:" + how)
+        out.count("multi-params=%d" % min(len(params), 4))
+        # the constructor keyword <X>_constraint must end up on raw_<X> (on the module itself when it owns such a parameter)
+        for cn, cobj in passed.items():
+            leaf = "raw_" + cn[:-len("_constraint")]
+            here = [Q for Q in params if Q["cons"] is cobj]
+            if leaf in m._parameters and m.constraint_for_parameter_name(leaf) is not cobj:
+                out.fail("multi:ctor:%s:%s:not-registered" % (type(m).__name__, cn), "the constraint passed as %s is not the one "
+                         "registered for %s (found %s)" % (cn, leaf, m.constraint_for_parameter_name(leaf)), desc0)
+            elif not here and not any(c_ is cobj for _, _, c_ in m.named_parameters_and_constraints()):
+                out.fail("multi:ctor:%s:%s:dropped" % (type(m).__name__, cn), "the constraint passed as %s is not registered for any "
+                         "parameter" % cn, desc0)
+        if not params:
+            continue
+        # (i) sample_from_prior through the module's own <X>_prior closures (constructor keywords) under distinct constraints
+        if how == "ctor":
+            try:
+                mp_, _ = make(True)
+                for pname, owner, prior, closure, setting in mp_.named_priors():
+                    local = pname.split(".")[-1]
+                    key = "%s:%s" % (type(owner).__name__, local)
+                    d2 = dict(desc0, prior=pname, check="sample-readback")
+                    out.case(d2, True, label="multi-prior-sample-readback")
+                    before = {Q["pn"]: getattr(Q["owner"], Q["pub"]).detach().clone() for Q in settable(mp_)}
+                    seed = rng.randint(0, 10 ** 6)
+                    try:
+                        torch.manual_seed(seed); want = prior.sample().detach()
+                        torch.manual_seed(seed); owner.sample_from_prior(local)
+                        got = closure(owner).detach()
+                    except Exception as e:
+                        out.fail("multi:prior-closure:%s:sample-exception" % key, "sample_from_prior raised %s: %s" % (type(e).__name__, str(e)[:200]), d2)
+                        continue
+                    if not torch.allclose(got, want.expand_as(got) if want.numel() <= got.numel() else want.reshape(got.shape), rtol=1e-9, atol=1e-11):
+                        out.fail("multi:prior-closure:%s:sample-readback" % key, "sample_from_prior drew %r but the parameter reads %r"
+                                 % (want.reshape(-1).tolist()[:3], got.reshape(-1).tolist()[:3]), d2,
+                                 impl=got.reshape(-1).tolist()[:4], model=want.reshape(-1).tolist()[:4])
+                    pub = local[:-6] if local.endswith("_prior") else None
+                    if pub and pub.startswith("raw_"):
+                        pub = pub[4:]
+                    named = any(Q["owner"] is owner and Q["pub"] == pub for Q in settable(mp_))
+                    for Q in settable(mp_):
+                        now = getattr(Q["owner"], Q["pub"]).detach()
+                        if Q["owner"] is owner and not named:
+                            continue        # the prior's name does not tell which parameter it addresses (ConstantMean: mean_prior)
+                        if Q["owner"] is owner and Q["pub"] == pub:
+                            if not torch.allclose(now, want.expand_as(now) if want.numel() <= now.numel() else want.reshape(now.shape), rtol=1e-9, atol=1e-11):
+                                out.fail("multi:prior-closure:%s:sample-readback" % key, "after sample_from_prior(%s) module.%s reads %r, drawn %r"
+                                         % (local, pub, now.reshape(-1).tolist()[:3], want.reshape(-1).tolist()[:3]), d2,
+                                         impl=now.reshape(-1).tolist()[:4], model=want.reshape(-1).tolist()[:4])
+                        elif not torch.equal(now, before[Q["pn"]]):
+                            out.fail("multi:prior-closure:%s:sample-changes-other" % key, "sample_from_prior(%s) changed %s" % (local, Q["pn"]), d2,
+                                     impl=now.reshape(-1).tolist()[:4], model=before[Q["pn"]].reshape(-1).tolist()[:4])
+            except Exception as e:
+                out.fail("multi:ctor:%s:construct-with-priors:%s" % (name, type(e).__name__), "constructing with priors raised %s: %s"
+                         % (type(e).__name__, str(e)[:200]), desc0)
+        # (ii) histories over all parameters against the multi-parameter model
+        for h in range(nh):
+            m3, _ = make(False)
+            params3 = settable(m3)
+            prior_names = []
+            for Q in params3:       # priors registered BY NAME (setting closure = initialize(<param>=value))
+                pn_ = "verif_%s_prior" % Q["pub"]
+                try:
+                    Q["owner"].register_prior(pn_, _prior_inside(Q["cons"], Q["shape"]), Q["pub"])
+                    prior_names.append(pn_)
+                except Exception:
+                    prior_names.append(None)
+            ops = gen_mhistory(params3, rng, 5 if tier == "quick" else 8, prior_names)
+            raw0 = [getattr(Q["owner"], Q["leaf"]).detach().reshape(-1)[0].item() for Q in params3]
+            desc = dict(desc0, ops=[list(o) if not isinstance(o[2], list) else [o[0], o[1], o[2][:4]] for o in ops], raw0=raw0)
+            key = "multi:%s:%s" % (how, type(m3).__name__)
+            try:
+                tr, complaints = apply_mhistory(m3, params3, ops, prior_names)
+            except Exception as e:
+                out.fail("%s:history-exception:%s" % (key, type(e).__name__), "history raised %s: %s" % (type(e).__name__, str(e)[:200]), desc)
+                continue
+            out.case(dict(module=name, how=how, rotation=rot, ops=["%d:%s" % (o[0], o[1]) for o in ops]), len(params3) >= 2, label="multi-history:" + how)
+            for oi, what, got, want in complaints:
+                out.fail("%s:%s:readback" % (key, params3[ops[oi][0]]["pub"]), "op %d (%s on %s): the parameter does not read back the assigned value"
+                         % (oi, ops[oi][1], params3[ops[oi][0]]["pn"]), desc, impl=got, model=want)
+            bad = [(oi, k) for oi, (_, row, _e) in enumerate(tr) for k, t in enumerate(row) if not (math.isfinite(t[1]) and math.isfinite(t[3]))]
+            if bad or any(not math.isfinite(mop[1]) for mop, _, _e in tr):
+                oi, k = bad[0] if bad else (0, 0)
+                out.fail("%s:%s:non-finite" % (key, params3[k]["pub"]), "after op %d parameter %s is not finite" % (oi, params3[k]["pn"]), desc)
+                continue
+            terms.append(mhistory_term(params3, raw0, list(zip(ops, tr))))
+            plan.append((key, desc, ops, tr, params3))
+    res = C.coq_run_cases("C17_multi" + TAGSFX, IMPORTS, RUN_DEF, terms, shard=max(8, (len(terms) + 15) // 16))
+    for (key, desc, ops, tr, params3), r in zip(plan, res):
+        rd = C.Reader(r)
+        stop = False
+        for oi, (mop, row, exc) in enumerate(tr):
+            for k, t in enumerate(row):
+                rej_m, read_m = rd.int(), rd.expr()
+                if stop:
+                    continue
+                Q = params3[k]
+                l, u = Q["lo"][0], Q["hi"][0]
+                scale = 1.0 + sum(abs(b) for b in (l, u) if abs(b) != INF)
+                who = "the addressed parameter" if k == ops[oi][0] else "ANOTHER parameter (%s)" % Q["pn"]
+                if not t[2]:
+                    out.fail("%s:%s:out-of-bounds" % (key, Q["pub"]), "after op %d (%s on %s) %s reads outside its bounds / non-finite"
+                             % (oi, ops[oi][1], params3[ops[oi][0]]["pn"], who), desc, impl=t[1])
+                    stop = True
+                elif t[0] != rej_m:
+                    out.fail("%s:%s:rejection" % (key, Q["pub"]), "op %d (%s %r on %s%s): implementation rejected %d assignments to %s so far, model %d"
+                             % (oi, ops[oi][1], ops[oi][2], params3[ops[oi][0]]["pn"], (", raised " + exc) if exc else "", t[0], Q["pn"], rej_m), desc, impl=t[0], model=rej_m)
+                    stop = True
+                elif not close(t[1], read_m, 1e-9 * scale, 1e-8):
+                    out.fail("%s:%s:read" % (key, Q["pub"]), "after op %d (%s on %s) %s reads %r, model %r"
+                             % (oi, ops[oi][1], params3[ops[oi][0]]["pn"], who, t[1], float(read_m)), desc, impl=t[1], model=float(read_m))
+                    stop = True
+
+
 # ------------------------------------------------------------------------------- C. priors
 
 def priors_table(rng):
@@ -775,7 +1202,8 @@ def run(out, ctx):
     torch.manual_seed(seed)
     times = {}
     for name, part in (("transforms", part_transforms), ("modules", part_modules), ("priors", part_priors),
-                       ("prior_modules", part_prior_modules), ("lkj", part_lkj), ("prior_transforms", part_prior_transforms)):
+                       ("prior_modules", part_prior_modules), ("lkj", part_lkj), ("prior_transforms", part_prior_transforms),
+                       ("multi", part_multi)):
         t0 = time.time()
         part(out, rng, tier)
         times[name] = round(time.time() - t0, 1)
